@@ -181,6 +181,7 @@ type Kernel struct {
 func NewKernel(seed uint64, pol Policy) *Kernel {
 	k := &Kernel{epoch: time.Now(), rng: NewRand(seed), pol: pol, MaxSteps: 200000}
 	k.pokeCh = make(chan struct{}, 1)
+	k.selfG = curG()
 	k.Chosen = make([]uint8, 0, 1<<16)
 	k.Chosen = k.Chosen[:cap(k.Chosen)]
 	k.digest = 1469598103934665603
@@ -820,7 +821,7 @@ func (k *Kernel) holdsWrite(addr uintptr) bool {
 // AcquireLock parks the current task until the lock at addr is free and marks it taken. The
 // caller then performs the real Lock/RLock, which cannot block.
 func (k *Kernel) AcquireLock(addr uintptr, write bool, point int) {
-	if k.isAborting() || k.Current() == nil {
+	if k.isAborting() || (k.Current() == nil && !k.Adopt) {
 		return
 	}
 	k.Park(nil, &LockCond{k: k, addr: addr, write: write, phase: 1}, point)
